@@ -22,7 +22,7 @@ SPEC = {
     "assumptions": ["vlib/prims.py operator semantics (shared by both sides, so an error there cancels out)",
                     "vlib/refeval.py reading of the documented source semantics", "vlib/avm.py control/stack/scratch/frame semantics"],
     "min_evaluations": {"quick": 8000, "thorough": 100000},
-    "must_reach": ["agree_approve", "agree_reject", "agree_fail", "mode_sig", "mode_app", "skeleton_cases", "first_statement_cases", "loops_iterated_2plus", "object_compiled_twice"],
+    "must_reach": ["agree_approve", "agree_reject", "agree_fail", "mode_sig", "mode_app", "skeleton_cases", "first_statement_cases", "multivalue_ok", "loops_iterated_2plus", "object_compiled_twice"],
     "shard_timeout": {"quick": 2400, "thorough": 14400},
 }
 
@@ -172,11 +172,66 @@ def first_statement_family(rng):
     return {"mode": "app", "vars": [], "subs": [sub], "main": main, "final": ["int", 1]}
 
 
+def multivalue_probe(pt, acc, rng):
+    """Operators with several results (MultiValue): result i of the opcode must be what output slot i holds.  The expected values
+    are computed with Python integers, not by the reference AVM."""
+    from .. import avm
+    from ..common import PT_ERRORS, reset_globals
+    reset_globals()
+    M = 2**64
+    edge = [0, 1, 2, 3, 7, M - 1, M - 2, 2**63, 2**32, 2**32 + 1, 10**18]
+
+    def val():
+        return rng.choice(edge) if rng.random() < .6 else rng.randrange(M)
+    op = rng.choice(["mulw", "addw", "expw", "divmodw", "divmodw", "divmodw"])
+    if op == "mulw":
+        a = [val(), val()]
+        exp = [a[0] * a[1] // M, a[0] * a[1] % M]
+    elif op == "addw":
+        a = [val(), val()]
+        exp = [(a[0] + a[1]) // M, (a[0] + a[1]) % M]
+    elif op == "expw":
+        a = [rng.choice([2, 3, 10, 255, 65536, M - 1]), rng.randrange(1, 9)]
+        if a[0] ** a[1] >= M * M:
+            a[1] = 1
+        exp = [a[0] ** a[1] // M, a[0] ** a[1] % M]
+    else:
+        a = [val(), val(), rng.choice([0, 0, 1, val()]), val()]
+        n, d = a[0] * M + a[1], a[2] * M + a[3]
+        if d == 0:
+            a[3] = d = 1 + rng.randrange(1000)
+        q, r = divmod(n, d)
+        exp = [q // M, q % M, r // M, r % M]
+    v = rng.choice([4, 5, 6, 7, 8, 9, 10])
+    case = {"probe": "multivalue", "op": op, "args": a, "version": v}
+    acc.evaluations += 1
+    try:
+        mv = pt.MultiValue(getattr(pt.Op, op), [pt.TealType.uint64] * len(exp), args=[pt.Int(x) for x in a])
+        prog = pt.Seq(mv, *[pt.App.globalPut(pt.Bytes("o%d" % i), sl.load(pt.TealType.uint64)) for i, sl in enumerate(mv.output_slots)], pt.Int(1))
+        teal = pt.compileTeal(prog, pt.Mode.Application, version=v, optimize=pt.OptimizeOptions(scratch_slots=rng.choice([False, False, True])))
+    except PT_ERRORS as e:
+        acc.violation("compile_rejected", case, "%s: %s" % (type(e).__name__, str(e)[:200]))
+        return
+    res = avm.run(avm.parse_any(teal), avm.Ctx())
+    got = [res.state.get(("o%d" % i).encode()) for i in range(len(exp))]
+    if res.status != "approve" or got != exp:
+        acc.violation("outcome_mismatch", case, "%s%r: output slots hold %r, the opcode's results in order are %r (status %s %s)" % (op, a, got, exp, res.status, res.error), teal=teal)
+    else:
+        acc.counters["multivalue_ok"] += 1
+        acc.counters["multivalue_" + op] += 1
+
+
 def run_shard(shard):
     from ..common import Acc, rng_for
     acc = Acc()
     if "replay" in shard:
         c = shard["replay"]
+        if c.get("probe") == "multivalue":
+            import pyteal as pt
+            import random
+            for k in range(400):
+                multivalue_probe(pt, acc, random.Random(k))
+            return acc.result()
         check_recipe(acc, c["recipe"], [c["version"]], [c["ctx"]], c.get("origin", "replay"))
         return acc.result()
     rng = rng_for(shard["seed"], "c01", shard["shard"])
@@ -192,6 +247,9 @@ def run_shard(shard):
         ctxs = [recipes.gen_ctx_desc(rng, mode, hostile=(i == 3)) for i in range(4)]
         check_recipe(acc, recipe, versions_for(rng, recipe, vgen), ctxs, "random")
         acc.counters["random_recipes"] += 1
+    import pyteal as pt
+    for it in range(60 if shard["tier"] == "quick" else 600):
+        multivalue_probe(pt, acc, rng)
     # ---- routines that begin with a loop / conditional / effect
     for it in range(max(20, shard["n"] // 10)):
         recipe = first_statement_family(rng)
